@@ -95,8 +95,15 @@ class AllocGen:
             return {"k": "for", "iv": self.fresh("i"), "trips": r.choice([0, 1, 2]), "body": body}
         return {"k": "if", "cond": r.choice(["%p0", "%p1"]), "then": [self.stmt(depth + 1) for _ in range(r.randint(1, 2))], "else": [self.stmt(depth + 1) for _ in range(r.randint(0, 1))]}
 
-    def program(self):
+    def program(self, callee=False):
         body = [self.stmt(0) for _ in range(self.r.randint(4, 14))]
+        if callee:
+            # a second function with its own buffers, called from somewhere in this one
+            g = AllocGen(self.r, views=False)
+            g.tag = 1000
+            gast = g.program()
+            body.insert(self.r.randint(0, len(body)), {"k": "call"})
+            self.callee = gast
         while self.unused:
             body.append(self.use())
         for j in self.joins:
@@ -107,10 +114,13 @@ class AllocGen:
         if not self.allocs:
             body.insert(0, self.stmt(0))
             body.append(self.use())
-        return {"body": body, "types": self.types}
+        ast = {"body": body, "types": self.types}
+        if callee:
+            ast["callee"] = self.callee
+        return ast
 
 
-def emit(ast, p=(0, 0)) -> str:
+def emit(ast, p=(0, 0), fname="f", wrap=True) -> str:
     L = []
     T = ast["types"]
     joined: dict = {}  # join name -> resolved source-level site for these conditions
@@ -158,6 +168,8 @@ def emit(ast, p=(0, 0)) -> str:
                     e(ind, "} else {")
                     stmts(ind + 1, s["else"])
                 e(ind, "}")
+            elif k == "call":
+                e(ind, "func.call @g(%p0, %p1) : (i1, i1) -> ()")
 
     site_of_name: dict = {}
 
@@ -181,14 +193,18 @@ def emit(ast, p=(0, 0)) -> str:
             src = s_["src"]
             if src in joined:
                 joined[s_["name"]] = joined[src]
-    e(0, "builtin.module {")
-    e(1, "func.func @f(%p0 : i1, %p1 : i1) {")
+    if wrap:
+        e(0, "builtin.module {")
+    e(1, f"func.func @{fname}(%p0 : i1, %p1 : i1) {{")
     for c in range(3):
         e(2, f"%c{c} = arith.constant {c} : index")
     stmts(2, ast["body"])
     e(2, "func.return")
     e(1, "}")
-    e(0, "}")
+    if ast.get("callee"):
+        L.append(emit(ast["callee"], p, fname="g", wrap=False))
+    if wrap:
+        e(0, "}")
     return "\n".join(L)
 
 
